@@ -269,6 +269,30 @@ def check(ctx):
             ctx.check(dedup, "C17.R12", f"{vu.qualname}:type-list", c, f"`{short(c, 60)}`: the types of the alternatives are concatenated as is: Union[int, NewType('U', int)] or Union[str, Path] gives {{\"type\": [\"integer\", \"integer\"]}}, invalid against the meta-schema", vu, c, detail="list(dict.fromkeys(types))")
     ctx.require(n12 >= 1, "_visited_union: folded type list not found")
 
+    # ---------------- R14: every traversal of the serialization direction sees the serialized methods
+    ctx.rule("C17.R14", "the object hooks of the serialization direction agree on the children of an object: the schema builder and the method visitor visit the return type of every serialized method, so do the pass counting references and the recursion analysis (otherwise a type reached only through a serialized method is inlined twice, or a recursion through it never ends)", floor=4)
+    SIBS = [("apischema.json_schema.schema.SerializationSchemaBuilder", ["properties", "object"], "schema builder"),
+            ("apischema.serialization.SerializationMethodVisitor", ["object"], "method visitor"),
+            ("apischema.json_schema.refs.SerializationRefsExtractor", ["object"], "reference counter"),
+            ("apischema.recursion.SerializationRecursiveChecker", ["object"], "recursion analysis")]
+    for cq, hooks, what in SIBS:
+        cls_ = model.cls(cq)
+        found = None
+        for h in hooks:
+            m_ = cls_.methods.get(h)
+            if m_ is None:
+                continue
+            for c in ast.walk(m_.node):
+                if isinstance(c, ast.Call) and (dotted(c.func) or "").split(".")[-1] == "get_serialized_methods":
+                    found = m_
+        visits = False
+        if found is not None:
+            ret_locals = {norm(a.targets[0]) for a in ast.walk(found.node) if isinstance(a, ast.Assign) and "['return']" in norm(a.value)}
+            visits = any(isinstance(c, ast.Call) and norm(c.func) == "self.visit_with_conv" and len(c.args) == 2 and ("['return']" in norm(c.args[0]) or norm(c.args[0]) in ret_locals) and norm(c.args[1]).endswith(".conversion") for c in ast.walk(found.node))
+        ctx.check(found is not None and visits, "C17.R14", f"{cq}:serialized-methods", None,
+                  f"the {what} of the serialization direction does not visit the return types of the serialized methods (with their conversion) while its siblings do: " + ("serialization_schema of a class whose serialized method returns List['Node'] recurses for ever (RecursionError) and a type used by a field and a serialized method is inlined twice with all_refs=False" if "refs" in cq else "serialize() of a class recursive through a serialized method overflows the stack while building its method" if "recursion" in cq else "serialized methods are missing"),
+                  found or cls_.methods.get(hooks[-1]), (found or cls_.methods.get(hooks[-1]) or cls_).node if (found or cls_.methods.get(hooks[-1])) else None, detail="for serialized, types in get_serialized_methods(tp): self.visit_with_conv(types['return'], serialized.conversion)")
+
     # ---------------- R13: optional components of the listed entries are per entry
     ctx.rule("C17.R13", "in a loop over entries that may be `(type, conversion)` pairs, a variable filled from the entry under a condition is reset at the start of every iteration: the conversion of one entry never applies to the entries listed after it", floor=1)
     n13 = 0
@@ -305,6 +329,8 @@ def check(ctx):
 
 
 def mutants(mb):
+    mb.add_text("refs-skip-serialized-methods", "apischema/json_schema/refs.py", "        # serialized methods are properties of the schema too\n        for serialized, types in get_serialized_methods(tp):\n            self.visit_with_conv(types[\"return\"], serialized.conversion)\n", "", "C17.R14", "SerializationRefsExtractor")
+    mb.add_text("recursion-skips-serialized-methods", "apischema/recursion.py", "        # the results of serialized methods are part of the serialized object\n        for serialized, types in get_serialized_methods(tp):\n            self.visit_with_conv(types[\"return\"], serialized.conversion)\n", "", "C17.R14", "SerializationRecursiveChecker")
     mb.add_text("conversion-loop-carried", "apischema/json_schema/schema.py", "    for tp in types:\n        conversion = None\n        if isinstance(tp, tuple):", "    conversion = None\n    for tp in types:\n        if isinstance(tp, tuple):", "C17.R13", "_extract_refs")
     mb.add_text("neg-conversion-else-branch", "apischema/json_schema/schema.py", "        conversion = None\n        if isinstance(tp, tuple):\n            tp, conversion = tp\n", "        if isinstance(tp, tuple):\n            tp, conversion = tp\n        else:\n            conversion = None\n", negative=True)
     mb.add_text("type-list-with-duplicates", "apischema/json_schema/schema.py", "            return json_schema(type=list(dict.fromkeys(types)))\n", "            return json_schema(type=list(types))\n", "C17.R12", "type-list")
@@ -319,7 +345,7 @@ def mutants(mb):
     mb.add_text("builder-dynamic-refs", S, "        schema = None\n        if not dynamic:\n            for ref_tp in self.resolve_conversion(tp):", "        schema = None\n        if True:\n            for ref_tp in self.resolve_conversion(tp):", "C17.R1", "not-dynamic")
     mb.add_text("union-counted-once", R, "        super().union(types)\n        if get_inherited_discriminator(types):\n            # Visit one more time discriminated union in order to ensure ref count > 1\n            super().union(types)", "        super().union(types)", "C17.R1", "union")
     mb.add_text("clash-not-refused", R, "            if replace_builtins(ref_cls) != replace_builtins(tp):\n                raise ValueError(\n                    f\"Types {tp} and {self.refs[ref][0]} share same reference '{ref}'\"\n                )\n", "", "C17.R2", "_incr_ref")
-    mb.add_text("second-writer", R, "    def object(self, tp: AnyType, fields: Sequence[ObjectField]):\n", "    def object(self, tp: AnyType, fields: Sequence[ObjectField]):\n        self.refs[str(tp)] = (tp, 1)\n", "C17.R2", "object")
+    mb.add_text("second-writer", R, "    def object(self, tp: AnyType, fields: Sequence[ObjectField]):\n        if parent :=", "    def object(self, tp: AnyType, fields: Sequence[ObjectField]):\n        self.refs[str(tp)] = (tp, 1)\n        if parent :=", "C17.R2", "object")
     mb.add_text("ref-without-membership", S, "        if ref not in self.refs:\n            return None\n        elif self._ignore_first_ref:", "        if ref is None:\n            return None\n        elif self._ignore_first_ref:", "C17.R3", "ref_schema")
     mb.add_text("defs-crossed-args", S, "        _extract_refs(types, default_conversion, builder, all_refs),\n        ref_factory,\n        additional_properties,", "        _extract_refs(types, default_conversion, builder, all_refs),\n        additional_properties,\n        ref_factory,", "C17.R4", "_refs_schema")
     mb.add_text("guard-not-decremented", R, "        finally:\n            self._rec_guard[(tp, self._conversion)] -= 1", "        finally:\n            pass", "C17.R5", "visit_conversion")
